@@ -232,6 +232,23 @@ type vfServer struct {
 	hook         func(ctx context.Context)
 }
 
+func vfCopyMD(in map[string][]string) metadata.MD {
+	out := metadata.MD{}
+	for k, v := range in {
+		out[k] = append([]string(nil), v...)
+	}
+	return out
+}
+
+// vfScribbleMD: what a handler does when it reuses the metadata.MD it has just handed to SetHeader /
+// SetTrailer (overwrite, append, add keys).
+func vfScribbleMD(md metadata.MD) {
+	for k := range md {
+		md[k] = []string{"scribbled"}
+	}
+	md["x-late"] = []string{"late"}
+}
+
 func (s *vfServer) unary(ctx context.Context, req *fakeMsg) (interface{}, error) {
 	s.calls++
 	s.got = append(s.got, req)
@@ -240,10 +257,14 @@ func (s *vfServer) unary(ctx context.Context, req *fakeMsg) (interface{}, error)
 		s.hook(ctx)
 	}
 	if s.setHdr != nil {
-		grpc.SetHeader(ctx, s.setHdr)
+		md := vfCopyMD(s.setHdr)
+		grpc.SetHeader(ctx, md)
+		vfScribbleMD(md) // the MD stays the caller's: reusing it must not change what was set
 	}
 	if s.setTrail != nil {
-		grpc.SetTrailer(ctx, s.setTrail)
+		md := vfCopyMD(s.setTrail)
+		grpc.SetTrailer(ctx, md)
+		vfScribbleMD(md)
 	}
 	if s.setHdr2 != nil {
 		grpc.SetHeader(ctx, s.setHdr2)
